@@ -2,7 +2,10 @@ package main
 
 import (
 	"fmt"
+	"regexp"
+	"strconv"
 	"strings"
+	"sync/atomic"
 	"unsafe"
 
 	"github.com/couchbase/nitro/skiplist"
@@ -19,8 +22,12 @@ type skipConcEngine struct {
 	bufs  []*skiplist.ActionBuffer
 	iters []map[string]*skiplist.Iterator
 	valid []map[string]bool
+	freeing bool  // mem=mmfree
+	freed   int64 // nodes freed by the barrier destructor (atomic)
 	keep  []unsafe.Pointer // items are referenced from off-heap nodes only: keep them reachable for Go's collector
 }
+
+var freesRe = regexp.MustCompile(`frees=(-?\d+)`)
 
 func init() { engines["skipconc"] = func() engine { return &skipConcEngine{} } }
 
@@ -61,7 +68,7 @@ func (e *skipConcEngine) report(t *sched.Thread, ev sched.Event, err error) stri
 }
 
 func (e *skipConcEngine) step(toks []string) string {
-	if toks[0] == "threads" && (len(toks) == 2 || (len(toks) == 3 && (toks[2] == "mem=go" || toks[2] == "mem=mm"))) {
+	if toks[0] == "threads" && (len(toks) == 2 || (len(toks) == 3 && (toks[2] == "mem=go" || toks[2] == "mem=mm" || toks[2] == "mem=mmfree"))) {
 		n, ok := atoi(toks[1])
 		if !ok || n < 1 || n > 64 || e.ctl != nil {
 			return "bad-op"
@@ -70,12 +77,20 @@ func (e *skipConcEngine) step(toks []string) string {
 			// Go-managed memory: no access barrier, iterators carry no session (the list operations are the same)
 			e.s = skiplist.New()
 		} else {
-			e.alloc = guardalloc.New(false)
+			// mem=mmfree: like nitro, a node deleted by `delf` is handed to the access barrier (FlushSession) and
+			// really freed by the barrier's destructor; freed blocks are mprotected, so any later access faults
+			e.freeing = len(toks) == 3 && toks[2] == "mem=mmfree"
+			e.alloc = guardalloc.New(e.freeing)
 			cfg := skiplist.DefaultConfig()
 			cfg.UseMemoryMgmt = true
 			cfg.Malloc = e.alloc.Malloc
 			cfg.Free = e.alloc.Free
-			cfg.BarrierDestructor = func(unsafe.Pointer) {}
+			cfg.BarrierDestructor = func(ref unsafe.Pointer) {
+				if e.freeing && ref != nil {
+					e.s.FreeNode((*skiplist.Node)(ref), &e.s.Stats)
+					atomic.AddInt64(&e.freed, 1)
+				}
+			}
 			e.s = skiplist.NewWithConfig(cfg)
 		}
 		e.ctl = sched.NewController()
@@ -127,12 +142,37 @@ func (e *skipConcEngine) step(toks []string) string {
 				_, succ := s.Insert2(itm, skiplist.CompareInt, nil, buf, scripted(l), &s.Stats)
 				return fmt.Sprint(succ)
 			}
-		case "del", "look":
+		case "del", "look", "delf":
 			k, ok := atoi(toks[3])
 			if !ok || len(toks) != 4 {
 				return "bad-op"
 			}
-			if toks[2] == "del" {
+			if toks[2] == "delf" {
+				// Delete as nitro does it: the same findPath + deleteNode as Delete (same yield points) under one
+				// barrier token, and the deleted node handed to the barrier for reclamation afterwards
+				f = func() string {
+					ab := s.GetAccesBarrier()
+					tok := ab.Acquire()
+					_, curr, found := s.Lookup(skiplist.NewIntKeyItem(k), skiplist.CompareInt, buf, &s.Stats)
+					done := false
+					if found {
+						done = s.DeleteNode2(curr, skiplist.CompareInt, buf, &s.Stats)
+					}
+					ab.Release(tok)
+					if done {
+						ab.FlushSession(unsafe.Pointer(curr))
+					}
+					return fmt.Sprint(done)
+				}
+			} else if toks[2] == "look" && e.freeing {
+				f = func() string {
+					ab := s.GetAccesBarrier()
+					tok := ab.Acquire()
+					_, _, found := s.Lookup(skiplist.NewIntKeyItem(k), skiplist.CompareInt, buf, &s.Stats)
+					ab.Release(tok)
+					return fmt.Sprint(found)
+				}
+			} else if toks[2] == "del" {
 				f = func() string {
 					return fmt.Sprint(s.Delete(skiplist.NewIntKeyItem(k), skiplist.CompareInt, buf, &s.Stats))
 				}
@@ -223,7 +263,15 @@ func (e *skipConcEngine) step(toks []string) string {
 		}
 		return walkLevels(s, true)
 	case "stats":
-		return statsLine(s)
+		line := statsLine(s)
+		if e.freeing {
+			// the model does not free: report the frees beyond those the harness itself caused through `delf`
+			if m := freesRe.FindStringSubmatch(line); m != nil {
+				n, _ := strconv.ParseInt(m[1], 10, 64)
+				line = strings.Replace(line, m[0], fmt.Sprintf("frees=%d", n-atomic.LoadInt64(&e.freed)), 1)
+			}
+		}
+		return line
 	}
 	return "bad-op"
 }
